@@ -23,7 +23,12 @@ type Failure struct {
 }
 
 func failf(sig, format string, a ...any) *Failure {
-	return &Failure{Signature: sig, Msg: fmt.Sprintf(format, a...)}
+	f := &Failure{Signature: sig, Msg: fmt.Sprintf(format, a...)}
+	if encodeNote != "" {
+		f.Msg += " " + encodeNote
+		encodeNote = ""
+	}
+	return f
 }
 
 // Replayers: check name -> oracle on a stored case. Filled by init() of each cNN file.
@@ -136,13 +141,49 @@ func safely(f func() error) (err error, panicked any, stack string) {
 	return
 }
 
-// LibEncode encodes a GV with the library into a fresh buffer.
+// recycledBuf: a buffer that has been used, overwritten and Reset - its spare capacity holds earlier (non-zero) bytes,
+// as the send buffer of any long-running session does. encodeNote: remark attached to the next reported failure.
+var (
+	recycledBuf   bytes.Buffer
+	recycledCalls int
+	encodeNote    string
+)
+
+// LibEncode encodes a GV with the library into a fresh buffer - and (single-goroutine checks, moderate sizes) once more,
+// from a second object built from the same value, into a recycled buffer, on alternate calls with a read offset > 0.
+// Encoding depends only on the message (C06), so both must agree; if they do not, the caller gets the recycled
+// buffer's result, which its own oracle then judges (the failure message says so).
 func LibEncode(v *Value) (out []byte, obj any, err error, panicked any) {
 	obj = ToStruct(v)
 	var buf bytes.Buffer
 	err, panicked, _ = safely(func() error { return EncodeAny(obj, &buf) })
 	out = append([]byte{}, buf.Bytes()...)
 	scribble(&buf)
+	encodeNote = ""
+	if panicked != nil || err != nil || len(out) > 256<<10 || Col.Property == "C19" || Col.Property == "C20" {
+		return out, obj, err, panicked
+	}
+	if recycledBuf.Cap() == 0 || recycledBuf.Cap() > 4<<20 {
+		recycledBuf = bytes.Buffer{}
+		recycledBuf.Grow(512)
+		scribble(&recycledBuf)
+	}
+	recycledCalls++
+	skip := 0
+	if recycledCalls%2 == 0 {
+		recycledBuf.WriteString("sent")
+		recycledBuf.Next(3)
+		skip = 1
+	}
+	obj2 := ToStruct(v)
+	err2, pan2, _ := safely(func() error { return EncodeAny(obj2, &recycledBuf) })
+	out2 := append([]byte{}, recycledBuf.Bytes()[min(skip, recycledBuf.Len()):]...)
+	scribble(&recycledBuf)
+	if pan2 != nil || err2 != nil || !bytes.Equal(out, out2) {
+		Col.Class("encode differs in a recycled buffer", 1)
+		encodeNote = fmt.Sprintf("[the bytes judged here were encoded into a recycled buffer (used before, Reset, spare capacity holding earlier bytes%s); into a fresh buffer the same value gives %d bytes, first difference at %d, err=%v panic=%v]", map[int]string{0: "", 1: ", one unread byte in front"}[skip], len(out), firstDiff(out, out2), err2, pan2)
+		return out2, obj2, err2, pan2
+	}
 	return out, obj, err, panicked
 }
 
